@@ -177,6 +177,12 @@ def z_r2_naive(p: Project, rep: Report):
             rep.check("Z-R2", f"{name}.convert[{nk}]:naive-refused", r is True, f"a naive {nk} is accepted as a model value" if r is not True else "", tloc(p, hc.fn))
 
 
+def _sign_assigned(stmts):
+    """'-' / '+' when the block (top level) assigns exactly that constant to a name, else None"""
+    vals = [st.value.value for st in stmts if isinstance(st, ast.Assign) and len(st.targets) == 1 and isinstance(st.targets[0], ast.Name) and isinstance(st.value, ast.Constant) and st.value.value in ("-", "+")]
+    return vals[0] if len(vals) == 1 else None
+
+
 def z_r3_writer_shape(p: Project, rep: Report):
     rep.rule("Z-R3", "the offset the writer emits lies inside the reader's grammar: '-' exactly for negative offsets, hours and minutes split from the ABSOLUTE offset, minutes as '.' + 2 digits; the reader's offset groups admit digits and both signs, a 2-digit minutes group and a ':'-introduced name.  (Writer clauses are decided on the flattened function; a spelling that is neither the known-good nor a known-bad form leaves the clause undecided.)")
     from . import canon
@@ -192,8 +198,8 @@ def z_r3_writer_shape(p: Project, rep: Report):
         test = pos = neg = None
         if isinstance(n, ast.IfExp) and isinstance(n.body, ast.Constant) and isinstance(n.orelse, ast.Constant) and {n.body.value, n.orelse.value} == {"-", "+"}:
             test, minus_on_true = n.test, n.body.value == "-"
-        elif isinstance(n, ast.If) and n.orelse and len(n.body) == 1 and len(n.orelse) == 1 and all(isinstance(b, ast.Assign) and isinstance(b.value, ast.Constant) for b in (n.body[0], n.orelse[0])) and {n.body[0].value.value, n.orelse[0].value.value} == {"-", "+"}:
-            test, minus_on_true = n.test, n.body[0].value.value == "-"
+        elif isinstance(n, ast.If) and n.orelse and _sign_assigned(n.body) and _sign_assigned(n.orelse) and {_sign_assigned(n.body), _sign_assigned(n.orelse)} == {"-", "+"}:
+            test, minus_on_true = n.test, _sign_assigned(n.body) == "-"
         else:
             continue
         a, pol = canon_atom(ex.x(test))
